@@ -1,5 +1,5 @@
 from ...scanner import Scanner
-from ...scanner_utils import is_quote, is_space, is_number, is_alpha, is_alpha_numeric_word
+from ...scanner_utils import is_quote, is_space, is_number, is_alpha, is_alpha_numeric_word, to_int
 from .utils import Chars, escaped
 from . import tokens
 
@@ -141,7 +141,7 @@ def repeater(scanner: Scanner, ctx: dict):
         implicit = False
 
         if scanner.eat_while(is_number):
-            count = int(scanner.current())
+            count = to_int(scanner)
         else:
             implicit = True
 
@@ -174,7 +174,7 @@ def repeater_number(scanner: Scanner):
             reverse = scanner.eat(Chars.Dash)
             scanner.start = scanner.pos
             if scanner.eat_while(is_number):
-                base = int(scanner.current())
+                base = to_int(scanner)
 
         scanner.start = start
         return tokens.RepeaterNumber(size, reverse, base, parent, start, scanner.pos)
@@ -190,7 +190,7 @@ def field(scanner: Scanner, ctx: dict):
 
         if scanner.eat_while(is_number):
             # It’s a field
-            index = int(scanner.current())
+            index = to_int(scanner)
             if scanner.eat(Chars.Colon):
                 name = consume_placeholder(scanner)
         elif is_alpha(scanner.peek()):
